@@ -53,8 +53,10 @@ def run(chk):
         got_s, got_c = [f for _, f in r["tunw_s"]], [f for _, f in r["tunw_c"]]
         delivered += len(got_s) + len(got_c)
         sent_c, sent_s = [f for _, f in r["sent_c"]], [f for _, f in r["sent_s"]]
-        must_c = [f for _, f in r["accepted_c"] if len(f) <= 700]      # accepted by the sending side and well within 16 fragments
-        must_s = [f for _, f in r["accepted_s"] if len(f) <= 700]
+        # accepted by the sending side and well within 16 fragments at the negotiated sizes (downstream: fragment size; upstream: at least
+        # 24 bytes per query even at the smallest hostname limit)
+        must_c = [f for _, f in r["accepted_c"] if len(f) + 1 <= 12 * 24]
+        must_s = [f for _, f in r["accepted_s"] if len(f) + 1 <= 12 * max(1, min(r.get("fs", 100), 4094))]
         why = None
         if any(f not in sent_c for f in got_s) or any(f not in sent_s for f in got_c):
             why = "a packet arrived corrupted (not equal to any offered packet)"
@@ -65,6 +67,9 @@ def run(chk):
         if why and r["negotiated"].get("dn") == "R" and "punct=keep" not in r["relay"]:
             # the downstream codec check string contains neither '+' nor '_': a relay that rewrites those bytes in TXT text passes the Raw test
             key = "c11:raw-punct"
+        if why and r["scenario"] == "forced" and ("punct=keep" not in r["relay"] or "8bit=clean" not in r["relay"] or "case=keep" not in r["relay"]):
+            # a forced -O codec is not tested by the handshake at all
+            key = "c11:forced-unchecked"
         if why:
             chk.violation("C11 fails on the implementation: the handshake settled on type %s, upstream %s, downstream %s, lazy %s through relay [%s] but %s"
                           % (r["negotiated"].get("qt"), r["negotiated"].get("enc"), r["negotiated"].get("dn"), r["negotiated"].get("lazy"), r["relay"], why), r["log"], key=key)
